@@ -19,6 +19,7 @@ use starlark_derive::StarlarkPagable;
 
 use crate as starlark;
 use crate::eval::bc::addr::BcAddr;
+use crate::eval::bc::stack_ptr::BcSlotIn;
 use crate::eval::runtime::frame_span::FrameSpan;
 use crate::values::FrozenStringValue;
 use crate::values::types::any_array::FrozenAnyArray;
@@ -31,6 +32,9 @@ pub(crate) struct BcInstrSlowArg {
     pub(crate) span: FrameSpan,
     /// Spans when an instruction needs multiple spans.
     pub(crate) spans: Vec<FrameSpan>,
+    /// Iterators of the enclosing loops which are active when this instruction is executed.
+    /// When the instruction fails, these iterations must be stopped to release mutation locks.
+    pub(crate) active_iters: Vec<BcSlotIn>,
 }
 
 #[derive(Debug, StarlarkPagable)]
